@@ -44,10 +44,12 @@ def thin_event(darsia, rng, tid, m1, m2, big=False):
     mob = rng.choice(MOBS)
     # the unique flux is the prefix sum of the mass difference; where it vanishes at an interior face Newton's mobility is 1/regularization
     pre = np.cumsum(np.array(m2) - np.array(m1))[:-1]
-    zface = bool(np.any(pre == 0))
+    full = np.concatenate([[0], pre, [0]])
+    # ... or at a cell centre (the two face fluxes of a cell cancel): the cell-based mobilities are then 1/regularization too
+    zface = bool(np.any(pre == 0)) or bool(np.any(full[:-1] + full[1:] == 0))
     reg = rng.choice(["default", "1e-10"]) if method == "newton" else "default"
     e = {"tid": tid, "op": "thin", "n": n, "shape": list(shape), "h": h, "a": a, "m1": list(m1), "m2": list(m2), "mode": mode, "method": method, "mob": mob, "raised": 0, "d2": -1,
-         "gauss6": -1, "reg": reg, "cls": "vanishing-face-flux:default-regularization" if (method == "newton" and zface and reg == "default") else "regular"}
+         "gauss6": -1, "reg": reg, "cls": "vanishing-flux:default-regularization" if (method == "newton" and zface and reg == "default") else "regular"}
     try:
         img1, img2 = make_images(darsia, shape, [float(x) for x in hs], np.array(m1, dtype=float).reshape(shape), np.array(m2, dtype=float).reshape(shape))
         idt = rng.choice(["float64", "float64", "uint8", "uint16", "int64", "float32"])     # integer masses in the pixel types images come in
